@@ -44,7 +44,7 @@ From AV Require Import model.Proto model.Bits model.Chain model.Program model.As
 From AV Require Import proofs.BuildProofs proofs.CalcSpec proofs.CalcProofs.
 From AV Require Import model.AstProto.
 From AV Require model.Cli.
-From AV Require Import proofs.SearchProofs proofs.SearchBridge proofs.SearchMain proofs.SearchEnsProofs proofs.SearchGen proofs.SearchFmtB proofs.SearchAll.
+From AV Require Import proofs.SearchProofs proofs.SearchBridge proofs.SearchMain proofs.SearchEnsProofs proofs.SearchGen proofs.SearchFmtB proofs.SearchAll proofs.SearchBounds.
 Import ListNotations.
 Open Scope Z_scope.
 
@@ -88,6 +88,13 @@ Theorem C14_results_consistent : forall w n rs,
   exists o, search_results w n rs = Ok o /\ consistent_report w n rs o.
 Proof. exact search_results_consistent. Qed.
 Print Assumptions C14_results_consistent.
+
+(* ... and no row of the printed table claims fewer operations than doubling allows *)
+Theorem C14_table_lower_bound : forall w n rs o,
+  Forall (good_ares n) rs -> consistent_report w n rs o ->
+  forall q d a, In (q, (d, a)) (so_table o) -> Z.log2_up n <= Z.of_nat (d + a).
+Proof. exact table_lower_bound. Qed.
+Print Assumptions C14_table_lower_bound.
 
 Theorem C14_search_consistent : forall ens : Z -> outcome (list ares),
   (forall n, 1 <= n -> exists rs, ens n = Ok rs /\ rs <> [] /\ Forall (good_ares n) rs /\ Forall fits_slice rs) ->
